@@ -7,7 +7,7 @@
    from /repo on every run into Gen/ParamsC13.v (unrepaired tree: fx = false, fb = true); the theorems quantify over both., [step] one machine step, [run_steps fuel] iterates it. *)
 From Coq Require Import ZArith List Bool Arith.
 From EN Require Import Conc.CancelScope Conc.CancelScopeDomain Proofs.C13_core Proofs.C13_inv Proofs.C13_more
-  Proofs.C13_bounded.
+  Proofs.C13_bounded Proofs.C13_leak.
 Import ListNotations.
 
 (* ---------------------------------------------------------------------------------------------------------------
@@ -185,6 +185,29 @@ Proof.
   intros fx fb p pos A B C S K E [N|F]; destruct (bounded_facts fx fb p pos A B C) as (_ & _ & _ & _ & P1 & P2 & _); auto.
 Qed.
 Print Assumptions external_cancel_propagates_bounded.
+
+(* ---- no_leftover for the repaired __exit__ (fx = true; the state of /repo since commit d070f72), ALL programs, ALL
+   controller schedules, any number of steps: no scope ever leaves a request behind (g_leak = 0), so once no scope is
+   active task.cancelling() = the controller cancels that were accepted (+ uncancel() calls that found the counter at
+   zero; these can only come from __cancel_task_unless_done and are 0 on the enumerated domain below).  The accepted
+   controller cancels include the ones findings F2 / F3 fail to DELIVER: they stay counted.  The proof needs the queue
+   invariant "a __deliver_cancellation handle is only ever queued for a scope whose cancel() was called", whence a
+   scope without cancel_called has issued no request (second theorem; both states of the code). *)
+Theorem no_leftover_repaired : forall fb p timers turns k fuel,
+  let st := run_steps fuel (init true fb p timers turns k) in
+  (forall s, In s (scopes st) -> s_host s = false) ->
+  t_cnt st = g_ext st + g_floor st.
+Proof. exact C13_leak.no_leftover_repaired. Qed.
+Print Assumptions no_leftover_repaired.
+Theorem repaired_never_leaks : forall fb p timers turns k fuel,
+  g_leak (run_steps fuel (init true fb p timers turns k)) = 0.
+Proof. exact leak_zero_reachable. Qed.
+Print Assumptions repaired_never_leaks.
+Theorem uncalled_scope_issued_nothing : forall fx fb p timers turns k fuel j,
+  let st := run_steps fuel (init fx fb p timers turns k) in
+  s_called (get_scope st j) = false -> s_calls (get_scope st j) = 0.
+Proof. exact C13_leak.uncalled_scope_issued_nothing. Qed.
+Print Assumptions uncalled_scope_issued_nothing.
 
 (* ---- no_leftover for the repaired __exit__ (fx = true), enumerated domain: every run finishes, every scope has
    exited, no scope left a request behind, no uncancel() hit zero, hence task.cancelling() = the controller cancels that
